@@ -57,7 +57,7 @@ def run_schedule(text, names, sig, sched, pastify=False, kind='ct', sd_extra=Non
 
 class C05(Prop):
     id = 'C05'
-    rule_added = 'Enumerated in every run: every binary operation (+ - * / pow log, and or implies iff xor, since, since[a,b]) with its operands on two variables that have their own sampling instants, first stamps and batch boundaries (per-variable and interleaved schedules). 35-50% of the cases add interleaved-source schedules (an update carries batches of some variables only, the others omitted or empty; idle polls). 12% under an interface-aware semantics (half: an overridden equality predicate on values mirrored around its constant). 10% of the aligned cases feed the inputs as fields of one object-typed variable.'
+    rule_added = 'In every run 2 (thorough 48) signals of 501-760 samples fed in one update and cut at/around sample 500. Enumerated in every run: every binary operation (+ - * / pow log, and or implies iff xor, since, since[a,b]) with its operands on two variables that have their own sampling instants, first stamps and batch boundaries (per-variable and interleaved schedules). 35-50% of the cases add interleaved-source schedules (an update carries batches of some variables only, the others omitted or empty; idle polls). 12% under an interface-aware semantics (half: an overridden equality predicate on values mirrored around its constant). 10% of the aligned cases feed the inputs as fields of one object-typed variable.'
     rule = ('random past dense-time formulas (and, pastified, bounded-future ones) x signals of 2..8 samples per '
             'variable x schedules {all-at-once, one sample at a time, 3 random aligned chunkings, 1 random '
             'per-variable chunking} (thorough: all 2^(n-1) aligned chunkings for n<=6): the concatenated update() '
@@ -71,7 +71,7 @@ class C05(Prop):
                    'an empty batch; the first call names every variable (possibly with an empty batch)']
     floors = {'quick': (100, 30), 'thorough': (2000, 500)}
     must_reach = ['abstract_dense_time_online_interpreter:AbstractDenseTimeOnlineInterpreter.update']
-    quick_cases = 2500
+    quick_cases = 2000
     thorough_cases = 250000
     shrink_data = False
 
@@ -308,6 +308,50 @@ class C05(Prop):
         case['interleaved'] = [self.gen_interleaved(rng, sig, names) for _ in range(3)]
         case['binop'] = o
         return case
+
+    def gen_long(self, rng):
+        """Signals of 501..1100 samples fed in one update (and cut at/around sample 500 and at random places): what
+        a batch-size dependent path of the online front end would meet."""
+        N, V, C = lang.N, lang.V, lang.C
+        px, py = N('geq', V('x'), C(rng.choice([0.0, 1.0]))), N('geq', V('y'), C(1.0))
+        pastify = False
+        r = rng.random()
+        if r < 0.25:
+            f = px
+        elif r < 0.45:
+            f = N('and', px, N('once', py, ivl=(Fr(0), Fr(3))))
+        elif r < 0.6:
+            f = N('since', px, py, ivl=(Fr(1), Fr(2)))
+        elif r < 0.75:
+            f, pastify = N('and', N('eventually', px, ivl=(Fr(0), Fr(3))), py), True
+        else:
+            c = lang.dense_cfg(rng, future=False, timed_since_until=False, max_bound=4)
+            c.max_depth, c.vars = 2, ['x', 'y']
+            f = lang.gen_formula(rng, c)
+        names = lang.variables(f) or ['x']
+        n = rng.choice([501, 502, 520, 640, 760])
+        t, stamps = Fr(0), []
+        for _ in range(n):
+            stamps.append(t)
+            t += Fr(rng.choice([1, 1, 2, 4]), 4)
+        sig = dict((k, [(s_, rng.choice([-1.0, 0.0, 2.0, 3.0, 0.5])) for s_ in stamps]) for k in names)
+        scheds = [[], rng.choice([[500], [499], [250]]), sorted(rng.sample(range(1, n), 3))]
+        return {'formula': f, 'signals': sig_text(sig), 'schedules': scheds, 'indep': None, 'pastify': pastify,
+                'long': True}
+
+    def shrinkable(self, case):
+        return not case.get('long')
+
+    def run(self, ctx):
+        self.long_cases(ctx)
+        Prop.run(self, ctx)
+
+    def long_cases(self, ctx):
+        for _ in range(2 if ctx.tier == 'quick' else max(1, 48 // ctx.nshards)):
+            if ctx.out_of_time():
+                break
+            self.check(ctx, self.gen_long(ctx.rng))
+            ctx.count('class:long-batches')
 
     def extra(self, ctx):
         per = 4 if ctx.tier == 'quick' else max(2, 400 // ctx.nshards)
